@@ -88,16 +88,20 @@ theorem abs_rewound (L : List (Option Arr)) : absL L 0 0 0 0 = [] := by
   simp [absL, off, F]
 
 /-- **Reset** ≙ clear: from every state satisfying the invariant, no panic, invariant re-established, content empty. -/
-theorem reset_refines {q : Q} (h : QInv q) : ∃ q', reset q = .ok q' ∧ QInv q' ∧ abs q' = [] := by
+theorem reset_spec {q : Q} (h : QInv q) : ∃ q', reset q = .ok q' ∧ QInv q' ∧ abs q' = [] ∧ HeadClean q' := by
   obtain ⟨q1, e1, t1⟩ := dropLoop_TInv q.baseNodeSize h.base (q.nodeIndex + 1) q h.toTInv
   obtain ⟨n, _, a2, a3, a4⟩ := t1.alloc q1.nodeIndex (Nat.le_refl _)
   obtain ⟨n0, b1, b2, _, _⟩ := t1.alloc 0 (Nat.zero_le _)
   obtain ⟨a, ha, _⟩ := shape_some b1
-  refine ⟨_, ?_, QInv_rewound t1 n0 b2 (n : Int) (by omega) (by omega) 0, abs_rewound _⟩
+  refine ⟨_, ?_, QInv_rewound t1 n0 b2 (n : Int) (by omega) (by omega) 0, abs_rewound _, HeadClean_origin rfl rfl⟩
   simp only [reset, e1, Res.ok_bind, size, a2, rewind, mkRef, ha, b2, Res.pure_eq]
 
+theorem reset_refines {q : Q} (h : QInv q) : ∃ q', reset q = .ok q' ∧ QInv q' ∧ abs q' = [] := by
+  obtain ⟨q', a, b, c, _⟩ := reset_spec h
+  exact ⟨q', a, b, c⟩
+
 /-- **Rellac** ≙ clear. -/
-theorem rellac_refines {q : Q} (h : QInv q) : ∃ q', rellac q = .ok q' ∧ QInv q' ∧ abs q' = [] := by
+theorem rellac_spec {q : Q} (h : QInv q) : ∃ q', rellac q = .ok q' ∧ QInv q' ∧ abs q' = [] ∧ HeadClean q' := by
   unfold rellac
   by_cases c : q.rellac ≥ q.tni
   · simp only [c, if_true]
@@ -110,12 +114,16 @@ theorem rellac_refines {q : Q} (h : QInv q) : ∃ q', rellac q = .ok q' ∧ QInv
     obtain ⟨n, _, a2, a3, a4⟩ := t1.alloc q1.nodeIndex (Nat.le_refl _)
     obtain ⟨n0, b1, b2, _, _⟩ := t1.alloc 0 (Nat.zero_le _)
     obtain ⟨a, ha, _⟩ := shape_some b1
-    refine ⟨_, ?_, QInv_rewound t1 n0 b2 (n : Int) (by omega) (by omega) q1.tni, abs_rewound _⟩
+    refine ⟨_, ?_, QInv_rewound t1 n0 b2 (n : Int) (by omega) (by omega) q1.tni, abs_rewound _, HeadClean_origin rfl rfl⟩
     simp only [e1, Res.ok_bind, size, a2, rewind, mkRef, ha, b2, Res.pure_eq]
   · obtain ⟨n0, b1, b2, _, _⟩ := h.alloc 0 (Nat.zero_le _)
     obtain ⟨a, ha, _⟩ := shape_some b1
-    refine ⟨_, ?_, QInv_rewound h.toTInv n0 b2 q.queueSize h.qsPos h.qsLt q.tni, abs_rewound _⟩
+    refine ⟨_, ?_, QInv_rewound h.toTInv n0 b2 q.queueSize h.qsPos h.qsLt q.tni, abs_rewound _, HeadClean_origin rfl rfl⟩
     simp only [c, if_false, Res.ok_bind, rewind, mkRef, ha, size, b2, Res.pure_eq]
+
+theorem rellac_refines {q : Q} (h : QInv q) : ∃ q', rellac q = .ok q' ∧ QInv q' ∧ abs q' = [] := by
+  obtain ⟨q', a, b, c, _⟩ := rellac_spec h
+  exact ⟨q', a, b, c⟩
 
 
 /-- one iteration of `freeQueue`'s loop: the last allocated node lies behind the tail node and is freed -/
@@ -158,10 +166,16 @@ theorem QInv_free_last {q : Q} (h : QInv q) (hlt : q.tni < q.nodeIndex) :
         rw [List.getElem_set_ne (by omega)]; exact hle
       rw [this]; simp only [nodeOf]; omega
 
-theorem freeLoop_refines (t : Nat) (fuel : Nat) (q : Q) (h : QInv q) (ht : q.tni ≤ t) :
-    ∃ q', freeLoop t fuel q = .ok q' ∧ QInv q' ∧ abs q' = abs q := by
+/-- freeing a node behind the tail node does not touch the cells before the head cursor -/
+theorem cleanL_free_behind {q : Q} (h : QInv q) (i : Nat) (hi : q.tni < i) (hc : HeadClean q) :
+    cleanL (q.queues.set i none) q.hni q.hqi := by
+  obtain ⟨p1, p2, _⟩ := h.pos
+  apply cleanL_prefix _ _ (q.tni + 1) _ _ (by rw [List.take_set_of_le (by omega)]) (by have := h.hle; omega) (by omega) hc
+
+theorem freeLoop_spec (t : Nat) (fuel : Nat) (q : Q) (h : QInv q) (ht : q.tni ≤ t) :
+    ∃ q', freeLoop t fuel q = .ok q' ∧ QInv q' ∧ abs q' = abs q ∧ (HeadClean q → HeadClean q') := by
   induction fuel generalizing q with
-  | zero => exact ⟨q, rfl, h, rfl⟩
+  | zero => exact ⟨q, rfl, h, rfl, id⟩
   | succ fuel ih =>
     unfold freeLoop
     by_cases c : q.nodeIndex > t
@@ -175,17 +189,27 @@ theorem freeLoop_refines (t : Nat) (fuel : Nat) (q : Q) (h : QInv q) (ht : q.tni
       have e2 : (q.sizes.set q.nodeIndex 0)[q.nodeIndex - 1]? = some n := by
         rw [List.getElem?_set_ne (by omega)]; exact e1
       simp only [c, if_true, freeNode_eq q _ hq hs, hd, Res.ok_bind, size, e2]
-      obtain ⟨q', f1, f2, f3⟩ := ih _ hq' ht
-      exact ⟨q', f1, f2, by rw [f3]; exact ha'⟩
-    · simp only [c, if_false]; exact ⟨q, rfl, h, rfl⟩
+      obtain ⟨q', f1, f2, f3, f4⟩ := ih _ hq' ht
+      exact ⟨q', f1, f2, by rw [f3]; exact ha', fun hc => f4 (cleanL_free_behind h _ (by omega) hc)⟩
+    · simp only [c, if_false]; exact ⟨q, rfl, h, rfl, id⟩
+
+theorem freeLoop_refines (t : Nat) (fuel : Nat) (q : Q) (h : QInv q) (ht : q.tni ≤ t) :
+    ∃ q', freeLoop t fuel q = .ok q' ∧ QInv q' ∧ abs q' = abs q := by
+  obtain ⟨q', a, b, c, _⟩ := freeLoop_spec t fuel q h ht
+  exact ⟨q', a, b, c⟩
 
 /-- **freeQueue** ≙ identity: spare nodes behind the tail node are released, the content is untouched. -/
-theorem freeQueue_refines {q : Q} (h : QInv q) : ∃ q', freeQueue q = .ok q' ∧ QInv q' ∧ abs q' = abs q := by
+theorem freeQueue_spec {q : Q} (h : QInv q) :
+    ∃ q', freeQueue q = .ok q' ∧ QInv q' ∧ abs q' = abs q ∧ (HeadClean q → HeadClean q') := by
   unfold freeQueue
   by_cases c : q.nodeSize ≤ q.baseNodeSize
-  · simp only [c, if_true]; exact ⟨q, rfl, h, rfl⟩
+  · simp only [c, if_true]; exact ⟨q, rfl, h, rfl, id⟩
   · simp only [c, if_false]
-    apply freeLoop_refines _ _ _ h
+    apply freeLoop_spec _ _ _ h
     split <;> omega
+
+theorem freeQueue_refines {q : Q} (h : QInv q) : ∃ q', freeQueue q = .ok q' ∧ QInv q' ∧ abs q' = abs q := by
+  obtain ⟨q', a, b, c, _⟩ := freeQueue_spec h
+  exact ⟨q', a, b, c⟩
 
 end Slock.Queue
